@@ -170,7 +170,11 @@ def cases(tier, seed):
     out = []
     for i, c in enumerate(cs):
         out.append(c)
-        if i % 4 == 1 and c['op'] in ('close_before', 'stall_before', 'truncate', 'patch', 'random', 'crafted', 'dup') and (tier == 'thorough' or i % 8 == 1):
+        if c['op'] in ('close_before', 'stall_before'):
+            # few and structurally important: always under both options
+            out.append(dict(c, opts=['-v']))
+            out.append(dict(c, opts=['-d']))
+        elif i % 4 == 1 and c['op'] in ('truncate', 'patch', 'random', 'crafted', 'dup') and (tier == 'thorough' or i % 8 == 1):
             out.append(dict(c, opts=['-v'] if (i // 4) % 2 == 0 else ['-d']))
     return out
 
